@@ -85,7 +85,8 @@ fn iter_yield(shape: &str, expr: &str) -> Yield {
         "indexSet", "smallVec",
     ];
     match e.as_str() {
-        "self" | "self.iter()" | "&self" | "&*self" => {
+        "self" | "self.iter()" | "&self" | "&*self" | "(&*self).iter()" | "(*self).iter()" | "self.into_iter()" | "(&self).into_iter()" | "(&*self).into_iter()"
+        | "self.as_slice()" | "self.as_slice().iter()" | "&self[..]" | "self[..].iter()" => {
             if maps.contains(&shape) {
                 Yield::Pair(0, 1)
             } else if seqs.contains(&shape) {
@@ -108,7 +109,7 @@ fn iter_yield(shape: &str, expr: &str) -> Yield {
                 Yield::Unknown
             }
         }
-        "&self.slice" | "self.slice.iter()" => {
+        "&self.slice" | "self.slice.iter()" | "(&self.slice).iter()" | "(&self.slice).into_iter()" | "self.slice.into_iter()" => {
             if shape == "sliceWithHeader" {
                 Yield::Single(1)
             } else {
@@ -123,9 +124,9 @@ fn iter_yield(shape: &str, expr: &str) -> Yield {
 fn source_pos(shape: &str, expr: &str) -> Option<usize> {
     let e = expr.replace(' ', "");
     match (shape, e.as_str()) {
-        ("box" | "rc" | "arc", "&**self") => Some(0),
-        ("refLock", "&*self.borrow()") => Some(0),
-        ("lock", "&self.get()") => Some(0),
+        ("box" | "rc" | "arc", "&**self" | "**self" | "self.as_ref()" | "&*self.as_ref()" | "self.deref()" | "&**self.deref()") => Some(0),
+        ("refLock", "&*self.borrow()" | "*self.borrow()" | "self.borrow()" | "&self.borrow()") => Some(0),
+        ("lock", "&self.get()" | "self.get()") => Some(0),
         ("sliceWithHeader", "self.header" | "&self.header") => Some(0),
         ("staticWrapper", "&self.0") => Some(0),
         _ => None,
@@ -179,9 +180,43 @@ fn parse_needs(e: &Expr, params: &[String], own: Option<(&[usize], bool)>) -> Op
     }
 }
 
+/// The variants of the value `src` evaluates to, with the type-argument position each carries:
+/// `Option<T>` (`self`, `self.as_ref()`), `Result<T, E>`, `OnceLock::get()`.
+fn variant_map(shape: &str, src: &str) -> Option<Vec<(&'static str, Option<usize>)>> {
+    let e = src.replace(' ', "");
+    match (shape, e.as_str()) {
+        ("option", "self" | "self.as_ref()" | "&self" | "*self" | "&*self") => Some(vec![("Some", Some(0)), ("None", None)]),
+        ("result", "self" | "self.as_ref()" | "&self" | "*self" | "&*self") => Some(vec![("Ok", Some(0)), ("Err", Some(1))]),
+        ("onceLock", "self.get()") => Some(vec![("Some", Some(0)), ("None", None)]),
+        _ => None,
+    }
+}
+
 impl<'a> Interp<'a> {
+    /// Bind the payload of a variant pattern (`Some(x)`, `Ok(r)`, `&Some(ref x)`); `None` / `_` bind nothing.
+    fn bind_variant(&mut self, pat: &Pat, vm: &[(&'static str, Option<usize>)]) -> bool {
+        match pat {
+            Pat::Reference(r) => self.bind_variant(&r.pat, vm),
+            Pat::Paren(p) => self.bind_variant(&p.pat, vm),
+            Pat::Wild(_) => true,
+            Pat::TupleStruct(ts) => {
+                let v = last_seg(&ts.path);
+                match vm.iter().find(|(c, _)| *c == v) {
+                    Some((_, Some(pos))) if ts.elems.len() == 1 => self.bind_pat(&ts.elems[0], &Yield::Single(*pos)),
+                    _ => false,
+                }
+            }
+            Pat::Path(pp) => vm.iter().any(|(c, p)| *c == last_seg(&pp.path) && p.is_none()),
+            Pat::Ident(pi) => pi.subpat.is_none() && vm.iter().any(|(c, p)| pi.ident == *c && p.is_none()),
+            _ => false,
+        }
+    }
+
     fn bind_pat(&mut self, pat: &Pat, y: &Yield) -> bool {
         match (pat, y) {
+            (Pat::Type(pt), _) => self.bind_pat(&pt.pat, y),
+            (Pat::Paren(pp), _) => self.bind_pat(&pp.pat, y),
+            (Pat::Wild(_), Yield::Single(_)) => true,
             (Pat::Ident(pi), Yield::Single(p)) => {
                 self.env.insert(pi.ident.to_string(), *p);
                 true
@@ -213,19 +248,21 @@ impl<'a> Interp<'a> {
                 _ => break,
             }
         }
-        if let Expr::Path(p) = e {
+        // a bound variable, possibly under `&`, `*`, parentheses (`t`, `&copy`, `&*guard`, `&**b`)
+        let mut x = e;
+        loop {
+            match x {
+                Expr::Paren(p) => x = &p.expr,
+                Expr::Group(p) => x = &p.expr,
+                Expr::Reference(r) if r.mutability.is_none() => x = &r.expr,
+                Expr::Unary(u) if matches!(u.op, UnOp::Deref(_)) => x = &u.expr,
+                _ => break,
+            }
+        }
+        if let Expr::Path(p) = x {
             if let Some(id) = p.path.get_ident() {
                 if let Some(pos) = self.env.get(&id.to_string()) {
                     return Some(*pos);
-                }
-            }
-        }
-        if let Expr::Reference(r) = e {
-            if let Expr::Path(p) = &*r.expr {
-                if let Some(id) = p.path.get_ident() {
-                    if let Some(pos) = self.env.get(&id.to_string()) {
-                        return Some(*pos);
-                    }
                 }
             }
         }
@@ -247,17 +284,12 @@ impl<'a> Interp<'a> {
             Expr::If(i) => {
                 // `if let Some(x) = SRC { … }` or `if P::NEEDS_TRACE { … }`
                 if let Expr::Let(l) = &*i.cond {
-                    let src = toks(&*l.expr).replace(' ', "");
-                    let ok_src = matches!((self.shape, src.as_str()), ("option", "self.as_ref()") | ("option", "self") | ("onceLock", "self.get()"));
-                    let mut bound = false;
-                    if ok_src {
-                        if let Pat::TupleStruct(ts) = &*l.pat {
-                            if last_seg(&ts.path) == "Some" && ts.elems.len() == 1 {
-                                bound = self.bind_pat(&ts.elems[0], &Yield::Single(0));
-                            }
-                        }
-                    }
-                    if !bound {
+                    // `if let Ctor(x) = SRC { … } [else { … }]`
+                    let Some(vm) = variant_map(self.shape, &toks(&*l.expr)) else {
+                        self.problems.push(format!("`if let {} = {}` not understood", toks(&*l.pat), toks(&*l.expr)));
+                        return;
+                    };
+                    if !self.bind_variant(&l.pat, &vm) {
                         self.problems.push(format!("`if let {} = {}` not understood", toks(&*l.pat), toks(&*l.expr)));
                         return;
                     }
@@ -279,29 +311,30 @@ impl<'a> Interp<'a> {
                 }
             }
             Expr::Match(m) => {
-                if toks(&*m.expr) != "self" || self.shape != "result" {
+                // `match SRC { Ctor(x) => …, … }` over the variants of Option / Result / OnceLock::get
+                let Some(vm) = variant_map(self.shape, &toks(&*m.expr)) else {
                     self.problems.push(format!("`match {}` not understood", toks(&*m.expr)));
                     return;
-                }
+                };
                 for arm in &m.arms {
-                    let mut ok = false;
-                    if let Pat::TupleStruct(ts) = &arm.pat {
-                        let v = last_seg(&ts.path);
-                        let pos = match v.as_str() {
-                            "Ok" => Some(0),
-                            "Err" => Some(1),
-                            _ => None,
-                        };
-                        if let (Some(pos), 1) = (pos, ts.elems.len()) {
-                            ok = self.bind_pat(&ts.elems[0], &Yield::Single(pos));
-                        }
-                    }
-                    if !ok || arm.guard.is_some() {
+                    if arm.guard.is_some() || !self.bind_variant(&arm.pat, &vm) {
                         self.problems.push(format!("match arm `{}` not understood", toks(&arm.pat)));
                         continue;
                     }
                     self.expr(&arm.body);
                 }
+            }
+            // `()` / `{}`: nothing happens
+            Expr::Tuple(t) if t.elems.is_empty() => {}
+            Expr::MethodCall(mc) if mc.method == "for_each" && mc.args.len() == 1 && matches!(&mc.args[0], Expr::Closure(_)) => {
+                // `ITER.for_each(|x| …)` is `for x in ITER { … }`
+                let Expr::Closure(cl) = &mc.args[0] else { return };
+                let y = iter_yield(self.shape, &toks(&*mc.receiver));
+                if cl.inputs.len() != 1 || matches!(y, Yield::Unknown) || !self.bind_pat(&cl.inputs[0], &y) {
+                    self.problems.push(format!("`{}.for_each({})` not understood", toks(&*mc.receiver), toks(&mc.args[0])));
+                    return;
+                }
+                self.expr(&cl.body);
             }
             Expr::MethodCall(mc) => {
                 let name = mc.method.to_string();
@@ -346,6 +379,14 @@ impl<'a> Interp<'a> {
                                     Pat::Wild(_) => {}
                                     _ => ok = false,
                                 }
+                            }
+                        }
+                    }
+                    if !ok {
+                        // `let name[: T] = SRC;` naming a value the shape is known to hold
+                        if let Some(init) = &l.init {
+                            if let Some(pos) = self.arg_pos(&init.expr) {
+                                ok = init.diverge.is_none() && self.bind_pat(&l.pat, &Yield::Single(pos));
                             }
                         }
                     }
@@ -452,8 +493,12 @@ pub fn extract(c: &Crate, items: &Items, raw: &Raw) -> Table {
                 if let TraitItem::Fn(f) = it {
                     if f.sig.ident == "trace" {
                         if let Some(b) = &f.default {
-                            let s = toks(b).replace(' ', "");
-                            t.short_circuit = s == "{ifC::NEEDS_TRACE{value.trace(self);}}";
+                            // `if <P>::NEEDS_TRACE { <arg>.trace(self); }` with P the method's type
+                            // parameter and arg its value parameter (names free)
+                            let s = toks(b).replace(' ', "").replace(";}", "}");
+                            let tp = type_params(&f.sig.generics).first().cloned().unwrap_or_default();
+                            let arg = f.sig.inputs.iter().nth(1).and_then(|a| if let FnArg::Typed(pt) = a { Some(toks(&*pt.pat)) } else { None }).unwrap_or_default();
+                            t.short_circuit = !tp.is_empty() && !arg.is_empty() && s == format!("{{if{tp}::NEEDS_TRACE{{{arg}.trace(self)}}}}");
                         }
                     }
                 }
